@@ -343,7 +343,8 @@ def run_job(unit, job, scratch, tier):
     """returns dict with verdict details"""
     cap = job.get("timeout", 600 if tier == "quick" else 3000)
     mem = job.get("mem_gb", 12 if tier == "quick" else 24)
-    env = shim_env(scratch) if job.get("backend") == "cvc5int" else None
+    env = shim_env(scratch) if job.get("backend") == "cvc5int" else dict(os.environ)
+    env["TMPDIR"] = scratch  # cbmc's CNF files for external SAT solvers (hundreds of MB) die with the scratch directory, also after a time-out
     cmd = cbmc_cmd(unit, job)
     rc, so, se, wall, rss, to = run(cmd, cap, mem, env=env)
     r = dict(entry=job["entry"], unit=unit.name, wall_s=round(wall, 2), max_rss_kb=rss, cmd=" ".join(cmd),
@@ -442,7 +443,8 @@ def extract_nd(trace):
 
 def get_trace(unit, job, prop, scratch, tier):
     cap = job.get("timeout", 600 if tier == "quick" else 3000)
-    env = shim_env(scratch) if job.get("backend") == "cvc5int" else None
+    env = shim_env(scratch) if job.get("backend") == "cvc5int" else dict(os.environ)
+    env["TMPDIR"] = scratch
     cmd = cbmc_cmd(unit, job, ["--trace", "--property", prop])
     rc, so, se, wall, rss, to = run(cmd, cap, 24, env=env)
     res, status, msgs = parse_cbmc_json(so)
